@@ -103,7 +103,7 @@ type pxConn struct {
 	hn   int
 	name string
 	l    *link
-	wmu  sync.Mutex // serialises the peer's writers: PeerWrite order = queue order
+	wmu  sync.Mutex  // serialises the peer's writers: PeerWrite order = queue order
 	deaf atomic.Bool // the connection's Read ignores its context (a blocking net.Conn framing does): only a failure of the link ends it
 }
 
